@@ -13,7 +13,7 @@ def run_bounded(chk):
     fkey = "coxeter.shapes.polygon::Polygon.is_inside"
     chk.functions.setdefault(fkey, {"sha": "-", "paths": 0, "lines": 0, "bounded_only": True})
     polys = dict(corpus.polygons_2d())
-    for i in range(3 if chk.tier == "quick" else 30):
+    for i in range(3 if chk.bounded_tier == "quick" else 30):
         polys[f"star{i}"] = corpus.star_polygon(5 + (5 * i) % 20, 31 * chk.seed + i)
     fails = []
     n_eval = n_cases = 0
